@@ -10,6 +10,7 @@ def run(ctx):
     G = Grammar(ctx.grammar)
     ctx.not_decided += ["order preservation under line breaking in general (only that no emission path discards the comment fields and no grammar gap or driver drops a comment)"]
     P.C09_comment_fields(ctx, "C09.R1", core)
+    P.C09_single_members(ctx, "C09.R1", core)
     P.C09_fallbacks(ctx, "C09.R1b", core)
     P.C09_drivers(ctx, "C09.R2", core, cli, wasm, G)
     P.C09_builder_slots(ctx, "C09.R3", core, G)
